@@ -291,6 +291,16 @@ theorem inv_step {s s' : St} {o : Op} (h : Inv s) (hs : step fixed s o = some s'
     split
     · exact h
     · rename_i hc; exact inv_arm h (by simpa using hc) .w _
+  | dial n =>
+    simp only [step] at hs; cases hs
+    split
+    · exact h
+    · rename_i hc; exact inv_arm h (by simpa using hc) .w _
+  | connected =>
+    simp only [step] at hs; cases hs
+    split
+    · exact h
+    · exact inv_stop h .w
   | write k =>
     simp only [step] at hs; cases hs
     unfold stepWrite
